@@ -9,8 +9,13 @@ claimed = {
  "C05": ("EXPECT-model completeness oracle + one-outcome-class check of the same world across seeded iteration-order schedules", "5 C05"),
  "C06": ("recovered panics and step/depth budgets over ill-behaved worlds, malformed options and generator faults", "5 C06"),
  "C07": ("provenance of the converted value / identity of the executed party across seeded iteration-order schedules", "5 C07"),
+ "C08": ("Redefine plan vs filter/supplied model, then execution of the plan with fresh provenance tokens", "5 C08"),
+ "C09": ("party log during Redefine + twin history (Redefine ops deleted) compared under per-operation reseeded schedules", "5 C09"),
  "C10": ("differential Convert vs Call of a simulated identity target in one history under the same schedule", "5 C10"),
+ "C11": ("execution counters and provenance over sequential histories and over seeded interleavings of simulated caller threads (baton scheduler)", "5 C11"),
+ "C12": ("simulated caller threads under a seeded baton scheduler + happens-before (vector clock) race detector over woven accesses; outcomes vs sequential baseline", "5 C12"),
  "C13": ("structured error fields vs reference model (hopeless parameters, supplied multiset, converter identity)", "5 C13"),
+ "C15": ("built-function parties over call histories: callback observations vs injected tokens, delivery of outputs, twin with ordinary functions", "5 C15"),
  "C16": ("provenance of injected option instances under list transformations and seeded iteration orders", "5 C16"),
  "C18": ("differential vs Floyd-Warshall under seeded map-iteration schedules", "5 C18"),
  "C19": ("op-by-op refinement of an adjacency reference model over seeded histories", "5 C19"),
@@ -41,7 +46,7 @@ for pid in allp:
             "technique": "deterministic simulation: " + tech,
         })
     elif pid not in ("C14", "C17"):
-        na.append({"property_id": pid, "reason": "check not built yet (under construction; see DESIGN.md section 10)"})
+        na.append({"property_id": pid, "reason": "not claimed"})
 m = {
  "version": 1,
  "setup_cmd": "./setup.sh",
